@@ -142,8 +142,8 @@ func run(c *mon.Ctx) {
 	})
 
 	// ---- Equal
-	poolN := c.N(96, 320)
-	c.Stream("equal-pools", c.N(4, 16), func(pi int, r *gen.Rand) {
+	poolN := c.N(96, 400)
+	c.Stream("equal-pools", c.N(4, 160), func(pi int, r *gen.Rand) {
 		var as []attrs
 		var ds []D
 		for len(as) < poolN {
